@@ -36,9 +36,16 @@ def run(tier, seed):
     import sys
     from .. import adm_adapter
     repo = os.environ.get("VERIF_REPO", "/repo")
-    files = sorted(glob.glob(os.path.join(repo, "*-ad.graphml")))
-    fscripts = [adm_adapter.file_script(f) for f in files]
-    vc.run_and_validate(rep, "adm", "harness.adm_adapter.run_script", "Trace_FimADM", fscripts, [{}],
-                        "the repository's advertisement models: " + ", ".join(os.path.basename(f) for f in files), batch_lines=10)
+    # tracked model files first; the root-level ones are artefacts the repository's tests leave behind (present or not)
+    files = sorted(glob.glob(os.path.join(repo, "test", "models", "*-ad.graphml"))) + sorted(glob.glob(os.path.join(repo, "*-ad.graphml")))
+    fscripts = []
+    for f in files:
+        try:
+            fscripts.append(adm_adapter.file_script(f))
+        except Exception as e:                                    # noqa: a file this importer cannot read is skipped, and said so
+            rep.extra.setdefault("model_files_skipped", []).append({"file": os.path.basename(f), "why": type(e).__name__})
+    if fscripts:
+        vc.run_and_validate(rep, "adm", "harness.adm_adapter.run_script", "Trace_FimADM", fscripts, [{}],
+                            "the repository's advertisement models: " + ", ".join(os.path.basename(f) for f in files), batch_lines=10)
     rep.extra["exhaustive"] = True
     return rep
